@@ -318,6 +318,21 @@ func c17LinRun(c fw.Case) fw.Verdict {
 	v.Count("index_rebuilds_held", int64(ih.Holds))
 	v.Sig = fw.HashSig("lin", typ, g, w, handler, shape.String())
 	v.NonTrivial = rw > 0
+	if typ == tEvent {
+		// unique values: a listing identifies the adds it contains, so the history is decided directly
+		// (the generic search over an append-only list is exponential in the number of overlapping adds)
+		if what := linEventLog(hist, s); what != "" {
+			return fw.Verdict{Status: fw.Violated, Key: "history-not-linearizable/" + typ, NonTrivial: true, Sig: v.Sig, Counters: v.Counters,
+				What: fmt.Sprintf("the calls recorded on one %s store handle (%d goroutines, handler %s) have no order that respects real time and explains every listing: %s", typ, g, handler, what)}
+		}
+		sn := TakeSnap(typ, s, P.Idx)
+		if vio := checkSnapAgainstModel(typ, sn.Entries, sn, &v); vio != nil {
+			return fw.Verdict{Status: fw.Violated, Key: vio.Key, What: vio.What, NonTrivial: true, Sig: v.Sig}
+		}
+		v.Status = fw.Held
+		v.Sample = map[string]interface{}{"mode": "lin", "type": typ, "goroutines": g, "ops_each": w, "handler": handler, "operations": len(hist), "overlapping_pairs": overl, "read_write_overlaps": rw}
+		return v
+	}
 	model := linModel(typ)
 	res, info := porcupine.CheckOperationsVerbose(model, hist, 60*time.Second)
 	switch res {
@@ -355,4 +370,77 @@ func c17LinRun(c fw.Case) fw.Verdict {
 	v.Status = fw.Held
 	v.Sample = map[string]interface{}{"mode": "lin", "type": typ, "goroutines": g, "ops_each": w, "handler": handler, "operations": len(hist), "overlapping_pairs": overl, "read_write_overlaps": rw}
 	return v
+}
+
+// linEventLog decides a history of Add(unique value) / full listings on ONE event log handle without
+// remote merges: the final listing is the append order; every listing must be a prefix of it; an add that
+// returned before a listing was called is in that listing; an add that a listing contains was called
+// before the listing returned; adds that do not overlap are listed in real-time order. Returns "" or
+// the first contradiction.
+func linEventLog(hist []porcupine.Operation, s iface.Store) string {
+	minus1 := -1
+	ops, err := s.(iface.EventLogStore).List(bg, &iface.StreamOptions{Amount: &minus1})
+	if err != nil {
+		return "final listing failed: " + err.Error()
+	}
+	pos := map[string]int{}
+	var final []string
+	for i, op := range ops {
+		pos[string(op.GetValue())] = i
+		final = append(final, string(op.GetValue()))
+	}
+	type add struct {
+		v    string
+		c, r int64
+		p    int
+	}
+	var adds []add
+	for _, o := range hist {
+		in := o.Input.(linIn)
+		if in.Op != "add" {
+			continue
+		}
+		p, ok := pos[in.Val]
+		if !ok {
+			return fmt.Sprintf("acknowledged add(%s) is not in the final listing of %d entries", in.Val, len(final))
+		}
+		adds = append(adds, add{in.Val, o.Call, o.Return, p})
+	}
+	if len(final) != len(adds) {
+		return fmt.Sprintf("final listing has %d entries for %d acknowledged adds", len(final), len(adds))
+	}
+	for _, a := range adds {
+		for _, b := range adds {
+			if a.r < b.c && a.p > b.p {
+				return fmt.Sprintf("add(%s) returned before add(%s) was called but is listed after it", a.v, b.v)
+			}
+		}
+	}
+	for _, o := range hist {
+		if o.Input.(linIn).Op != "list" {
+			continue
+		}
+		out := o.Output.(string)
+		var l []string
+		if out != "" {
+			l = strings.Split(strings.TrimSuffix(out, ","), ",")
+		}
+		if len(l) > len(final) {
+			return fmt.Sprintf("a listing of %d entries is longer than the final listing (%d)", len(l), len(final))
+		}
+		for i := range l {
+			if l[i] != final[i] {
+				return fmt.Sprintf("a listing [%d entries, call %d] is not a prefix of the final listing: position %d holds %s, finally %s", len(l), o.Call, i, l[i], final[i])
+			}
+		}
+		for _, a := range adds {
+			if a.r < o.Call && a.p >= len(l) {
+				return fmt.Sprintf("add(%s) returned at %d, a listing called at %d (by goroutine %d) shows %d entries and not that one", a.v, a.r, o.Call, o.ClientId, len(l))
+			}
+			if a.p < len(l) && a.c > o.Return {
+				return fmt.Sprintf("a listing that returned at %d contains %s, whose add was called at %d", o.Return, a.v, a.c)
+			}
+		}
+	}
+	return ""
 }
